@@ -394,19 +394,52 @@ def work_rep(name, a, b, tier, seed, res):
                     connected_net(inputs):
                 pc = importlib.import_module(
                     "cotengra.pathfinders.path_compressed")
-                for chi, wsize in ((10 ** 9, 2), (2, 2), (10 ** 9, 3)):
+                for chi, wsize, late in ((10 ** 9, 2, False), (2, 2, False),
+                                         (10 ** 9, 3, False), (2, 0, True),
+                                         (3, 0, True), (10 ** 9, 0, True)):
                     res.evals += 1
                     case = {"kind": "rep", "api": "WindowedOptimizer",
                             "inputs": inputs, "output": output, "sizes": sd,
-                            "chi": chi, "window": wsize}
+                            "chi": chi, "window": wsize,
+                            "compress_late": late}
                     try:
-                        minimize = ctg.scoring.CompressedPeakObjective(chi)
+                        minimize = ctg.scoring.CompressedPeakObjective(
+                            chi, compress_late=late)
                         n = len(inputs)
                         ssa0 = [(0, 1)] + [(n + k - 1, k + 1)
                                            for k in range(1, n - 1)]
                         wo = pc.WindowedOptimizer(
                             inputs, output, sd, minimize=minimize,
                             ssa_path=ssa0, seed=s)
+                        if late:
+                            # late compression: the two step-by-step
+                            # simulators on the SAME (unrefined) path, for
+                            # every tree
+                            for nested in U.all_trees(range(n)):
+                                ssa1 = U.tree_to_ssa(nested, n)
+                                wo = pc.WindowedOptimizer(
+                                    inputs, output, sd, minimize=minimize,
+                                    ssa_path=ssa1, seed=s)
+                                rep_t = wo.tracker
+                                t = ctg.ContractionTreeCompressed.from_path(
+                                    inputs, output, sd, ssa_path=ssa1,
+                                    objective=minimize)
+                                st = t.compressed_contract_stats(
+                                    chi, compress_late=True)
+                                res.evals += 1
+                                bad_ = [w for w in ("flops", "write",
+                                                    "max_size", "peak_size")
+                                        if getattr(rep_t, w) !=
+                                        getattr(st, w)]
+                                if bad_:
+                                    res.violation(
+                                        "simulators-disagree:windowed-vs-"
+                                        "tree:late:" + bad_[0],
+                                        {**case, "tree": nested},
+                                        {"windowed": getattr(rep_t, bad_[0]),
+                                         "tree": getattr(st, bad_[0])})
+                                    break
+                            continue
                         wo.refine(window_size=wsize, max_iterations=6,
                                   max_window_tries=20, order_only=False)
                         rep_t = wo.tracker
